@@ -487,6 +487,23 @@ func (n *Normer) valueCases(fn *ssa.Function, from *ssa.BasicBlock, v ssa.Value,
 			}
 		}
 	}
+	if call, ok := v.(*ssa.Call); ok {
+		if _, bound := n.Bind[call]; !bound {
+			if cal := call.Common().StaticCallee(); cal != nil && isRepoFunc(cal) && cal.Blocks != nil && !inlinable(cal) && cal.Object() != nil && !cal.Object().Exported() && cal.Signature.Results().Len() == 1 && pureLoopFreeAllowCalls(cal) {
+				var out []valCase
+				saved := n.Ctx
+				n.Ctx = append(append([]ssa.CallInstruction{}, saved...), call)
+				for _, ret := range returnsOf(cal) {
+					rc := n.ReachCond(cal, nil, ret.Block())
+					for _, sub := range n.valueCases(cal, nil, ret.Results[0], depth+1) {
+						out = append(out, valCase{sub.val, cAnd(rc, sub.cond)})
+					}
+				}
+				n.Ctx = saved
+				return mergeCases(out)
+			}
+		}
+	}
 	var out []valCase
 	var rec func(cond *Cond, decided int)
 	rec = func(cond *Cond, decided int) {
@@ -494,6 +511,28 @@ func (n *Normer) valueCases(fn *ssa.Function, from *ssa.BasicBlock, v ssa.Value,
 		if phi == nil || decided >= 6 {
 			if eq, _ := CondEquivalent(cond, cFalse); eq {
 				return
+			}
+			// the selected alternative may itself be the result of a helper with several returns
+			leaf := v
+			for {
+				p, ok := leaf.(*ssa.Phi)
+				if !ok {
+					break
+				}
+				i, chosen := n.PhiChoice[p]
+				if !chosen {
+					break
+				}
+				leaf = p.Edges[i]
+			}
+			if leaf != v && depth < 3 {
+				switch leaf.(type) {
+				case *ssa.Call, *ssa.Extract:
+					for _, sub := range n.valueCases(fn, from, leaf, depth+1) {
+						out = append(out, valCase{sub.val, cAnd(cond, sub.cond)})
+					}
+					return
+				}
 			}
 			out = append(out, valCase{n.Norm(v), cond})
 			return
@@ -560,4 +599,17 @@ func checkCases(c *Ctx, R, key string, pos token.Pos, cases []valCase, specs []e
 			c.Check(R, fmt.Sprintf("%s/extra%d", key, ci), pos, false, "only the expected alternatives", fmt.Sprintf("%s when %s", cs.val, cs.cond))
 		}
 	}
+}
+
+// pureLoopFreeAllowCalls: no loops; may call other functions (e.g. append a symbol), the value
+// returned is what matters to the caller of valueCases.
+func pureLoopFreeAllowCalls(fn *ssa.Function) bool {
+	for _, b := range fn.Blocks {
+		for _, s := range b.Succs {
+			if s.Dominates(b) {
+				return false
+			}
+		}
+	}
+	return true
 }
